@@ -13,6 +13,7 @@
     * `_patch_count_in_radial_offset`, `horizontal_radial_patches` (counts),
       `horizontal_radial_patch_weights`             -> `offsetRowCount`, `offsetPatchCount`, `offsetWeights`
     * `tregenza_solid_angles`, `reinhart_solid_angles` (incl. their cache slots) -> `solidAngles`, `SAState`
+    * all eleven lazily built `tregenza_*` / `reinhart_*` properties and their cache slots -> `LazyProp`, `LState`
 
   Numbers: the area/weight functions are generic in the number type `α` and take the sequence
   `s i = sin(i-th accumulated vertical angle)` as a parameter, so that they run on `Float` in the
@@ -206,6 +207,89 @@ def SAState.read (st : SAState) (reinhart : Bool) : List Rat × SAState :=
 def readSeq : SAState → List Bool → List (List Rat)
   | _, [] => []
   | st, b :: rest => let r := st.read b; r.1 :: readSeq r.2 rest
+
+/-! ### The lazily built properties of `ViewSphere` (slot table) -/
+
+/-- The eleven lazy properties; each has a cache slot of the same name (`_<name>`). -/
+inductive LazyProp where
+  | tDomeVec | tSphereVec | tDomeMesh | tDomeMeshHi | tSphereMesh | tSolid
+  | rDomeVec | rSphereVec | rDomeMesh | rSphereMesh | rSolid
+  deriving DecidableEq, Repr
+
+def LazyProp.all : List LazyProp :=
+  [.tDomeVec, .tSphereVec, .tDomeMesh, .tDomeMeshHi, .tSphereMesh, .tSolid,
+   .rDomeVec, .rSphereVec, .rDomeMesh, .rSphereMesh, .rSolid]
+
+/-- What a slot can hold: the vectors / the mesh of `dome_patches(n, in_place)` or of
+`sphere_patches(n)`, or one of the two solid-angle tables. -/
+inductive Content where
+  | domeVec (n : Nat) (inPlace : Bool)
+  | domeMesh (n : Nat) (inPlace : Bool)
+  | sphereVec (n : Nat)
+  | sphereMesh (n : Nat)
+  | solid (reinhart : Bool)
+  deriving DecidableEq, Repr
+
+/-- What the property is documented to return (the statement's "one vector per patch", Tregenza = 1,
+Reinhart = 2; the high-resolution display mesh is the 3× in-place subdivision). -/
+def LazyProp.designated : LazyProp → Content
+  | .tDomeVec => .domeVec 1 false
+  | .tSphereVec => .sphereVec 1
+  | .tDomeMesh => .domeMesh 1 false
+  | .tDomeMeshHi => .domeMesh 3 true
+  | .tSphereMesh => .sphereMesh 1
+  | .tSolid => .solid false
+  | .rDomeVec => .domeVec 2 false
+  | .rSphereVec => .sphereVec 2
+  | .rDomeMesh => .domeMesh 2 false
+  | .rSphereMesh => .sphereMesh 2
+  | .rSolid => .solid true
+
+/-- The slot a getter tests for `None` and returns (as the code is: its own). -/
+def LazyProp.slot (p : LazyProp) : LazyProp := p
+
+/-- The assignments a getter performs when its slot is empty, transcribed getter by getter
+(`self._a, self._b = self.dome_patches(...)`, `…, _ = self.dome_patches(3, True)`, …). -/
+def LazyProp.writes : LazyProp → List (LazyProp × Content)
+  | .tDomeVec => [(.tDomeMesh, .domeMesh 1 false), (.tDomeVec, .domeVec 1 false)]
+  | .tSphereVec => [(.tSphereMesh, .sphereMesh 1), (.tSphereVec, .sphereVec 1)]
+  | .tDomeMesh => [(.tDomeMesh, .domeMesh 1 false), (.tDomeVec, .domeVec 1 false)]
+  | .tDomeMeshHi => [(.tDomeMeshHi, .domeMesh 3 true)]
+  | .tSphereMesh => [(.tSphereMesh, .sphereMesh 1), (.tSphereVec, .sphereVec 1)]
+  | .tSolid => [(.tSolid, .solid false)]
+  | .rDomeVec => [(.rDomeMesh, .domeMesh 2 false), (.rDomeVec, .domeVec 2 false)]
+  | .rSphereVec => [(.rSphereMesh, .sphereMesh 2), (.rSphereVec, .sphereVec 2)]
+  | .rDomeMesh => [(.rDomeMesh, .domeMesh 2 false), (.rDomeVec, .domeVec 2 false)]
+  | .rSphereMesh => [(.rSphereMesh, .sphereMesh 2), (.rSphereVec, .sphereVec 2)]
+  | .rSolid => [(.rSolid, .solid true)]
+
+/-- Slot contents of one `ViewSphere` object (`none` = the initial `None`). -/
+abbrev LState := LazyProp → Option Content
+
+def LState.empty : LState := fun _ => none
+
+def LState.assign (st : LState) (ws : List (LazyProp × Content)) : LState :=
+  ws.foldl (fun s w => fun q => if q = w.1 then some w.2 else s q) st
+
+/-- One property read: fill the slots when the tested slot is empty, return the getter's slot
+(`none` = the getter hands out `None`). -/
+def LState.read (st : LState) (p : LazyProp) : Option Content × LState :=
+  match st p.slot with
+  | some _ => (st p.slot, st)
+  | none => let st' := st.assign p.writes; (st' p.slot, st')
+
+/-- Results of a sequence of property reads, starting from a given object state. -/
+def lazyReadSeq : LState → List LazyProp → List (Option Content)
+  | _, [] => []
+  | st, p :: rest => let r := st.read p; r.1 :: lazyReadSeq r.2 rest
+
+/-- Number of entries of a content (vectors, table entries; faces for a mesh). -/
+def Content.count : Content → Except Err Nat
+  | .domeVec n ip => (domeShape n ip).map (·.vectorCount)
+  | .domeMesh n ip => (domeShape n ip).map (·.faces.length)
+  | .sphereVec n => (sphereShape n).map (·.vectorCount)
+  | .sphereMesh n => (sphereShape n).map (·.faces.length)
+  | .solid b => .ok (if b then reinhartSolidAngles else tregenzaSolidAngles).length
 
 -- unit tests that do not depend on the regenerated tables (those are theorems in Props/C20.lean)
 #guard rowCountsOf [3, 2] 1 = [3, 2]
